@@ -385,7 +385,10 @@ def run_check(name, tier):
         },
         "assumptions": chk.assumptions,
     }
-    if not os.environ.get("VERIF_NO_EVIDENCE"):      # (soak runs from snapshots must not write evidence)
+    from . import world as _w
+    foreign_tree = os.path.realpath(_w.REPO) != os.path.realpath("/repo")
+    # evidence is only ever written by runs in /verif against /repo itself (not for mutants / soak snapshots)
+    if not os.environ.get("VERIF_NO_EVIDENCE") and not foreign_tree:
         os.makedirs(os.path.join(VERIF, "evidence"), exist_ok=True)
         with open(os.path.join(VERIF, "evidence", prop + ".json"), "w") as f:
             json.dump(ev, f, indent=1, sort_keys=True, default=str)
